@@ -45,6 +45,12 @@ type c14fInv struct {
 func TestC14Free(t *testing.T) {
 	st := vkit.For("c14_free")
 	rapid.Check(t, func(t *rapid.T) {
+		// one case in sixty is a marathon instead: tens of thousands of calls queued behind one gated call with a single
+		// worker, so that one worker goroutine serves a very long unbroken run of items
+		if rapid.IntRange(0, 59).Draw(t, "marathon") == 0 {
+			c14Marathon(t, st, rapid.SampledFrom([]int{3000, 17000, 40000}).Draw(t, "marathonCalls"), rapid.IntRange(1, 2).Draw(t, "marathonCount"))
+			return
+		}
 		nW := rapid.IntRange(1, 2).Draw(t, "wrappers")
 		wrapCount := make([]int, nW)
 		for i := range wrapCount {
@@ -205,4 +211,53 @@ func TestC14Free(t *testing.T) {
 		}
 		st.Case(trace, overlap.Load(), fmt.Sprintf("callers:%d", nG))
 	})
+}
+
+
+// c14Marathon: n calls (each from its own goroutine, each returning its own index) queue up behind gated calls that
+// keep every worker busy; then the gates open. Every call returns its own result, Wait returns, Count is zero, nobody
+// is left behind (a call that is never executed leaves the bubble deadlocked, which the driver reports).
+func c14Marathon(t *rapid.T, st *vkit.Stats, n, count int) {
+	trace := []string{fmt.Sprintf("marathon: %d calls behind %d gated ones, count=%d", n, count, count)}
+	vkit.CaseStart(func() string { return trace[0] })
+	var wrong atomic.Int64
+	var firstWrong atomic.Value
+	countEnd := -1
+	rapid.SyncTest(t, func(t *rapid.T) {
+		w := new(bigbuff.Workers)
+		gate := make(chan struct{})
+		var wg sync.WaitGroup
+		for g := 0; g < count; g++ {
+			wg.Add(1)
+			go func() {
+				defer wg.Done()
+				_, _ = w.Call(count, func() (any, error) { <-gate; return nil, nil })
+			}()
+		}
+		synctest.Wait() // the gated calls occupy every worker
+		for i := 0; i < n; i++ {
+			wg.Add(1)
+			go func(i int) {
+				defer wg.Done()
+				v, err := w.Call(count, func() (any, error) { return i, nil })
+				if v != any(i) || err != nil {
+					if wrong.Add(1) == 1 {
+						firstWrong.Store(fmt.Sprintf("call %d returned (%v, %v)", i, v, err))
+					}
+				}
+			}(i)
+		}
+		synctest.Wait() // everything is queued
+		close(gate)
+		wg.Wait()
+		w.Wait()
+		countEnd = w.Count()
+	})
+	if wrong.Load() > 0 {
+		vkit.Fail(t, "C14/wrong-result", "%d of %d calls returned something else than their own function's result, e.g. %v\ncase: %v", wrong.Load(), n, firstWrong.Load(), trace)
+	}
+	if countEnd != 0 {
+		vkit.Fail(t, "C14/count-after-wait", "Count()=%d after Wait returned with no call in flight\ncase: %v", countEnd, trace)
+	}
+	st.Case(trace, n > 16384, "marathon")
 }
